@@ -216,4 +216,129 @@ theorem linCheck_trace_cas (c : Config) (s : List Nat) (hd : (c.run casLoopP s).
         rw [hp] at ih'
         exact ih'
 
+/-! ### a completing schedule exists from every reachable configuration (non-vacuity of "runs to completion", and
+lock-freedom: a thread that is scheduled alone completes its call in at most three steps) -/
+
+/-- reachable control states of the CAS-loop shape -/
+def Config.WF (c : Config) : Prop := ∀ t ∈ c.threads, t.pc ≤ 1
+
+def total : List Thread → Nat
+  | [] => 0
+  | t :: r => t.ops.length + total r
+
+theorem run_append (P : Op → Prog) (c : Config) (a b : List Nat) : c.run P (a ++ b) = (c.run P a).run P b := by
+  induction a generalizing c with
+  | nil => rfl
+  | cons i a ih => simp only [List.cons_append, Config.run]; exact ih _
+
+theorem total_set (l : List Thread) (i : Nat) (t t' : Thread) (h : l[i]? = some t) :
+    total (l.set i t') + t.ops.length = total l + t'.ops.length := by
+  induction l generalizing i with
+  | nil => simp at h
+  | cons x r ih =>
+    cases i with
+    | zero => simp at h; subst h; simp [total]; omega
+    | succ k =>
+      simp only [List.getElem?_cons_succ] at h
+      have := ih k h
+      simp only [List.set_cons_succ, total]; omega
+
+theorem total_pos (l : List Thread) (h : 0 < total l) : ∃ (i : Nat) (t : Thread), l[i]? = some t ∧ t.ops ≠ [] := by
+  induction l with
+  | nil => simp [total] at h
+  | cons x r ih =>
+    by_cases hx : x.ops = []
+    · have : 0 < total r := by simpa [total, hx] using h
+      obtain ⟨i, t, hi, ht⟩ := ih this
+      exact ⟨i + 1, t, by simpa using hi, ht⟩
+    · exact ⟨0, x, rfl, hx⟩
+
+theorem total_zero_all (l : List Thread) (h : total l = 0) : ∀ t ∈ l, t.ops.isEmpty = true := by
+  induction l with
+  | nil => intro t ht; cases ht
+  | cons x r ih =>
+    simp only [total] at h
+    intro t ht
+    rcases List.mem_cons.mp ht with rfl | hr
+    · have : t.ops.length = 0 := by omega
+      simpa using this
+    · exact ih (by omega) t hr
+
+theorem total_zero_done (c : Config) (h : total c.threads = 0) : c.done = true := by
+  simp only [Config.done, List.all_eq_true]
+  exact total_zero_all c.threads h
+
+/-- one step of thread `i` at a given control state, spelled out -/
+theorem config_step_at (c : Config) (i : Nat) (t : Thread) (h : c.threads[i]? = some t) :
+    (c.step casLoopP i).1 = ⟨(t.step casLoopP c.word).1, c.threads.set i (t.step casLoopP c.word).2.1⟩ := by
+  simp [Config.step, h]
+
+theorem set_getElem? (l : List Thread) (i : Nat) (t t' : Thread) (h : l[i]? = some t) : (l.set i t')[i]? = some t' := by
+  have hlt : i < l.length := (List.getElem?_eq_some_iff.mp h).1
+  simp [hlt]
+
+/-- thread `i` scheduled alone completes its current call within three steps; nothing else changes -/
+theorem advance_one (c : Config) (i : Nat) (op : Op) (rest : List Op) (pc : Nat) (reg : Word) (hpc : pc ≤ 1)
+    (h : c.threads[i]? = some ⟨op :: rest, pc, reg⟩) :
+    ∃ s r', c.run casLoopP s = ⟨op.apply c.word, c.threads.set i ⟨rest, 0, r'⟩⟩ := by
+  obtain ⟨w, l⟩ := c
+  simp only at h
+  have load : ∀ (l : List Thread) (r0 : Word), l[i]? = some ⟨op :: rest, 0, r0⟩ →
+      (Config.mk w l).run casLoopP [i, i] = ⟨op.apply w, l.set i ⟨rest, 0, w⟩⟩ := by
+    intro l r0 h0
+    have h1 := config_step_at ⟨w, l⟩ i _ h0
+    have e1 : (Config.step casLoopP ⟨w, l⟩ i).1 = ⟨w, l.set i ⟨op :: rest, 1, w⟩⟩ := by
+      rw [h1]; simp [Thread.step, casLoopP, Thread.next]
+    have h2 := config_step_at ⟨w, l.set i ⟨op :: rest, 1, w⟩⟩ i _ (set_getElem? l i _ _ h0)
+    simp only [Config.run, e1, h2]
+    simp [Thread.step, casLoopP]
+  match pc, hpc with
+  | 0, _ => exact ⟨[i, i], w, load l reg h⟩
+  | 1, _ =>
+    by_cases hw : w = reg
+    · refine ⟨[i], reg, ?_⟩
+      have h1 := config_step_at ⟨w, l⟩ i _ h
+      simp only [Config.run, h1]
+      simp [Thread.step, casLoopP, hw]
+    · refine ⟨[i] ++ [i, i], w, ?_⟩
+      rw [run_append]
+      have h1 := config_step_at ⟨w, l⟩ i _ h
+      have e1 : (Config.mk w l).run casLoopP [i] = ⟨w, l.set i ⟨op :: rest, 0, reg⟩⟩ := by
+        simp only [Config.run, h1]
+        simp [Thread.step, casLoopP, Thread.next, hw]
+      rw [e1, load _ reg (set_getElem? l i _ _ h)]
+      simp
+
+theorem exists_complete_cas (c : Config) (hwf : c.WF) : ∃ s, (c.run casLoopP s).done = true := by
+  generalize hn : total c.threads = n
+  induction n generalizing c with
+  | zero => exact ⟨[], total_zero_done c hn⟩
+  | succ n ih =>
+    obtain ⟨i, t, hi, ht⟩ := total_pos c.threads (by omega)
+    obtain ⟨ops, pc, reg⟩ := t
+    cases ops with
+    | nil => exact absurd rfl ht
+    | cons op rest =>
+      have hpc : pc ≤ 1 := hwf _ (List.mem_of_getElem? hi)
+      obtain ⟨s, r', hs⟩ := advance_one c i op rest pc reg hpc hi
+      have hwf' : (c.run casLoopP s).WF := by
+        rw [hs]
+        intro t ht
+        rcases List.mem_or_eq_of_mem_set ht with h | h
+        · exact hwf t h
+        · subst h; simp
+      have htot : total (c.run casLoopP s).threads = n := by
+        rw [hs]
+        have := total_set c.threads i _ ⟨rest, 0, r'⟩ hi
+        simp at this ⊢
+        omega
+      obtain ⟨s', hs'⟩ := ih _ hwf' htot
+      exact ⟨s ++ s', by rw [run_append]; exact hs'⟩
+
+theorem init_WF (w : Word) (ops : List (List Op)) : (Config.init w ops).WF := by
+  intro t ht
+  simp only [Config.init, List.mem_map] at ht
+  obtain ⟨o, _, rfl⟩ := ht
+  simp [Thread.init]
+
 end MosnVerif.Model.HealthFlags
